@@ -832,6 +832,11 @@ impl DirectAddrUpdateState {
                     }
                 }
 
+                // Release the net reporter before signalling completion: the actor reacts to
+                // the signal with `try_run`, which must be able to take the lock to start a
+                // pending update. Otherwise that update is lost until the next request.
+                drop(net_reporter);
+
                 // mark run as finished
                 debug!("direct addr update done ({:?})", why);
                 run_done.send(()).await.ok();
